@@ -165,9 +165,66 @@ def _variants():
         V("wedge2-always-false", replace_stmt(PW, "PinWords.has_finite_wedges_type_2", "return True", "return False"), "fire", "C16-W3"),
         V("alternations-table-invalid", replace_expr(PW, "PinWords.has_finite_alternations", "Perm((1, 3, 0, 2))", "Perm((1, 3, 1, 2))"), "fire", "C16-W3"),
         V("wedge1-table-duplicate", replace_expr(PW, "PinWords.has_finite_wedges_type_1", "Perm((3, 2, 0, 1))", "Perm((3, 1, 2, 0))"), "fire", "C16-W3"),
+        V("m-accepts-UU", replace_expr(PW, "PinWords.make_dfa_for_m", "{'U': 3, 'D': 3, 'L': 2, 'R': 2}", "{'U': 1, 'D': 3, 'L': 2, 'R': 2}"), "fire", "C16-W4"),
+        V("m-dead-state-accepting", replace_expr(PW, "PinWords.make_dfa_for_m", "frozenset({0, 1, 2})", "frozenset({0, 1, 2, 3})", which=1), "fire-or-undecided", "C16-W4"),
+        V("m-rejects-empty", replace_expr(PW, "PinWords.make_dfa_for_m", "frozenset({0, 1, 2})", "frozenset({1, 2})"), "fire", "C16-W4"),
         # silent
         V("reformat-pinwords", reformat_only(PW), "silent"),
         V("special-and-chain", replace_stmt(PW, "PinWords.has_finite_special_simples", "alt = cls.has_finite_alternations(basis)", "alt = cls.has_finite_alternations(basis) and True"), "silent"),
         V("alternations-not-any", replace_stmt(PW, "PinWords.has_finite_alternations", "for sym in all_symmetry_sets(alt_basis): ...", "return not any((all((any((x.contains(p) for p in sym)) for x in basis)) for sym in all_symmetry_sets(alt_basis)))\n"), "silent"),
         V("rename-basis", rename_local(PW, "PinWords.has_finite_wedges_type_1", "wedge1_b", "table"), "silent"),
     ]
+
+
+# ------------------------------------------------------------------ W4: the language M (table validation)
+
+
+def rule_w4(ctx: Ctx) -> None:
+    """make_dfa_for_m is a literal automaton: validate that it accepts exactly the direction words in which no two
+    consecutive letters move along the same axis (the pin-sequence language M used by has_finite_pinperms)."""
+    from ..core import const_value
+
+    f = ctx.repo.need_method("PinWords", "make_dfa_for_m")
+    calls = [n for n in walk_no_nested(f.node) if isinstance(n, ast.Call) and call_name(n) == ("DFA",)]
+    if len(calls) != 1:
+        raise AnalysisError(f"{f.where}: DFA literal not found")
+    kw = {k.arg: k.value for k in calls[0].keywords}
+    try:
+        trans = {const_value(k): {const_value(a): const_value(b) for a, b in zip(v.keys, v.values)} for k, v in zip(kw["transitions"].keys, kw["transitions"].values)}
+        init = const_value(kw["initial_state"])
+        finals = {const_value(e) for e in kw["final_states"].args[0].elts}
+        states = {const_value(e) for e in kw["states"].args[0].elts}
+    except (KeyError, ValueError, AttributeError, IndexError):
+        raise AnalysisError(f"{f.where}: DFA literal is not a table of constants")
+    if unparse(kw.get("input_symbols")) != "frozenset(DIRS)":
+        raise AnalysisError(f"{f.where}: alphabet is not frozenset(DIRS)")
+    axis = {"U": "v", "D": "v", "L": "h", "R": "h"}
+    if set(trans) != states or any(set(t) != set(axis) for t in trans.values()):
+        ctx.violation("C16-W4", f, calls[0], "the automaton for M is not complete over the four direction letters")
+        return
+    # product with the reference automaton (last axis, dead) – explore all reachable pairs
+    seen = set()
+    todo = [(init, "start")]
+    while todo:
+        q, ref = todo.pop()
+        if (q, ref) in seen:
+            continue
+        seen.add((q, ref))
+        if (q in finals) != (ref != "dead"):
+            ctx.violation("C16-W4", f, calls[0], f"state {q} is {'accepting' if q in finals else 'rejecting'} after a word that is {'not ' if ref == 'dead' else ''}in M (no two consecutive letters along one axis)")
+            return
+        for a, ax in axis.items():
+            nref = "dead" if ref == "dead" or ref == ax else ax
+            todo.append((trans[q][a], nref))
+    ctx.ok("C16-W4", f.where, f"the literal automaton accepts exactly the alternating direction words ({len(seen)} product states explored)", calls[0], f)
+
+
+_OLD_RUN = run
+
+
+def run(ctx: Ctx) -> None:  # noqa: F811
+    _OLD_RUN(ctx)
+    ctx.run(rule_w4, ctx)
+
+
+FLOORS["C16-W4"] = 1
